@@ -18,7 +18,15 @@ version's own descriptor); the verdict evaluates `Spec.Reflection` on the *obser
   descriptor-decodes-to-registered  every descriptor answer decodes to one of the registered descriptors
   services-chosen / services-exactly-declared / services-only-declared / services-all-declared
   answers-every-request           a stream without error has one answer per request
-  versions-agree                  without the own descriptors, v1 and v1alpha answer identically
+  versions-agree                  v1 and v1alpha answer identically: literally when the own descriptors
+                                  are not included; otherwise on every stream up to the first request
+                                  that names something of an own descriptor, service lists up to the
+                                  services the own descriptors declare
+
+Comparison with the model (DESIGN §3.3): an error is its status code (`err <code>`; its class is
+the request it answers, i.e. its position), a builder error is its variant; message texts are on
+neither side.  The service list is compared sorted when no service name was chosen (the
+property, and the clause above, fix it up to order only) and as answered otherwise.
 -/
 namespace DriverC19
 open Proto Refl
@@ -178,14 +186,11 @@ def allFiles (c : Case) (own : Option File) : List File :=
   (c.regs.map (fun r => match r with | .s fs => fs | .e fs => fs | .b => [])).flatten
     ++ (match own with | some o => [o] | none => [])
 
-def kindText : Reflection.Kind → String
-  | .message => "message" | .enum => "enum" | .enumValue => "enum value" | .field => "field"
-  | .oneof => "oneof" | .service => "service" | .method => "method"
-
+/-- the variant of `tonic_reflection::server::Error` (`DecodeError` / `InvalidFileDescriptorSet`) -/
 def errText : Reflection.Err → String
   | .decode => "build-err decode"
-  | .missingFileName => "build-err invalid " ++ hex (Ascii.ofString "missing name")
-  | .missing k => "build-err invalid " ++ hex (Ascii.ofString ("missing " ++ kindText k ++ " name"))
+  | .missingFileName => "build-err invalid"
+  | .missing _ => "build-err invalid"
 
 def hexDigit (n : Nat) : Char := Hex.digit n
 
@@ -206,25 +211,31 @@ def indexOf (files : List (File × String)) (f : File) : String :=
   | some i => s!"fd {i} {(files[i]?.map (·.2)).getD "-"}"
   | none => "fd-unknown"
 
-def answerText (files : List (File × String)) : Reflection.Answer → List String
+/-- bytewise lexicographic order (Rust's `[u8]` / `str` order) -/
+def bytesLe : Bytes → Bytes → Bool
+  | [], _ => true
+  | _ :: _, [] => false
+  | a :: as, b :: bs => if a < b then true else if b < a then false else bytesLe as bs
+
+def answerText (sortSvcs : Bool) (files : List (File × String)) : Reflection.Answer → List String
   | .fileDescriptor f => [indexOf files f]
   | .extensionNumbers => ["ext-empty"]
-  | .services l => [s!"svcs {l.length}"] ++ l.map hex
+  | .services l => [s!"svcs {l.length}"] ++ (if sortSvcs then l.mergeSort bytesLe else l).map hex
 
 /-- `r1`: the i-th response carries the i-th request's host and the request itself -/
-def responseTexts (files : List (File × String)) : List Reflection.Request → List Reflection.Response → List String
+def responseTexts (sortSvcs : Bool) (files : List (File × String)) : List Reflection.Request → List Reflection.Response → List String
   | rq :: rqs, rs :: rss =>
     (if decide (rs.validHost = rq.host) && decide (rs.originalRequest = rq) then "r1" else "r0")
-      :: answerText files rs.answer ++ responseTexts files rqs rss
-  | [], rs :: rss => "r0" :: answerText files rs.answer ++ responseTexts files [] rss
+      :: answerText sortSvcs files rs.answer ++ responseTexts sortSvcs files rqs rss
+  | [], rs :: rss => "r0" :: answerText sortSvcs files rs.answer ++ responseTexts sortSvcs files [] rss
   | _, [] => []
 
-def streamText (files : List (File × String)) (st : Reflection.State) (reqs : List Reflection.Request) : List String :=
+def streamText (sortSvcs : Bool) (files : List (File × String)) (st : Reflection.State) (reqs : List Reflection.Request) : List String :=
   let (as, fin) := Reflection.runStream st reqs
-  ["["] ++ responseTexts files reqs as ++
+  ["["] ++ responseTexts sortSvcs files reqs as ++
     (match fin with
      | none => ["end"]
-     | some (c, m) => [s!"err {c.toNat} {hex m}"]) ++ ["]"]
+     | some c => [s!"err {c.toNat}"]) ++ ["]"]
 
 def modelVersion (c : Case) (own : Option File) : String :=
   let cfg : Reflection.Config :=
@@ -233,12 +244,12 @@ def modelVersion (c : Case) (own : Option File) : String :=
   | .error e => errText e
   | .ok st =>
     let files := (allFiles c own).map (fun f => (f, bytesToken f))
-    String.intercalate " " ("ok" :: (c.streams.map (streamText files st)).flatten)
+    String.intercalate " " ("ok" :: (c.streams.map (streamText c.chosen.isNone files st)).flatten)
 
 /-! ### observed side -/
 
 inductive OAns where
-  | fd (i : Nat) (bytes : Option Bytes) | ext | svcs (l : List Name) | junk (what : String)
+  | fd (i : Nat) (bytes : Option Bytes) (raw : String) | ext | svcs (l : List Name) | junk (what : String)
 
 inductive OEnd where
   | fin | err (code : Nat) | junk
@@ -260,9 +271,9 @@ def oStream : Nat → List String → List OAns → Option ((List OAns × OEnd) 
   | fuel + 1, ts, acc =>
     match ts with
     | "end" :: "]" :: r => some ((acc.reverse, .fin), r)
-    | "err" :: c :: _ :: "]" :: r => some ((acc.reverse, .err (c.toNat?.getD 0)), r)
+    | "err" :: c :: "]" :: r => some ((acc.reverse, .err (c.toNat?.getD 0)), r)
     | "r1" :: "fd" :: i :: w :: r => match i.toNat? with
-        | some i => oStream fuel r (.fd i (unhex w) :: acc)
+        | some i => oStream fuel r (.fd i (unhex w) w :: acc)
         | none => none
     | "r1" :: "ext-empty" :: r => oStream fuel r (.ext :: acc)
     | "r1" :: "svcs" :: k :: r => match k.toNat? with
@@ -288,7 +299,7 @@ def oStreams : Nat → List String → List (List OAns × OEnd) → Option (List
 def oBuild (ts : List String) : OBuild × List String :=
   match ts with
   | "build-err" :: "decode" :: r => (.err, r)
-  | "build-err" :: "invalid" :: _ :: r => (.err, r)
+  | "build-err" :: "invalid" :: r => (.err, r)
   | "ok" :: r => match oStreams (r.length + 1) r [] with
       | some (ss, r') => (.ok ss, r')
       | none => (.junk, [])
@@ -311,13 +322,13 @@ def judgeAnswer (c : Case) (files : List File) (rq : Reflection.Req) (a : OAns) 
     if w = "fd-unknown" || w = "fd-undecodable" || w = "fds" then
       [("descriptor-decodes-to-registered", false)]
     else [("answer-shape:" ++ w, false)]
-  | .fileContainingSymbol n, .fd i bs =>
+  | .fileContainingSymbol n, .fd i bs _ =>
     [("symbol-resolves-to-declaring-file", match files[i]? with
       | some f => declares f n
       | none => false),
      ("descriptor-decodes-to-registered", decodesTo files i bs)]
   | .fileContainingSymbol _, _ => [("symbol-answer-kind", false)]
-  | .fileByFilename nm, .fd i bs =>
+  | .fileByFilename nm, .fd i bs _ =>
     [("file-by-name", match files[i]? with
       | some f => decide (f.name = some nm)
       | none => false),
@@ -374,6 +385,64 @@ def judgeVersion (c : Case) (own : Option File) (o : OBuild) : List (String × B
   | .err => [("build-succeeds", !(decodable && wellNamed))]
   | .ok ss => judgeStreams c files c.streams ss
 
+/-! ### v1 against v1alpha
+
+With the own descriptors included the two services legitimately differ in what concerns those
+descriptors.  `C19_versions_agree_every_request` / `_streams` / `_services` (Props/C19) say where
+they must not: on every request that names nothing of an own descriptor, and on the service
+list up to the services the own descriptors declare.  A stream is compared up to (excluding)
+the first request that is not of that kind: from there on one service may have answered where
+the other ended the stream. -/
+
+/-- multiset difference -/
+def mdiff (a b : List Name) : List Name := b.foldl List.erase a
+
+open Spec.Reflection in
+def outsideOwn (o1 o1a : File) : Reflection.Req → Bool
+  | .fileContainingSymbol n => !declares o1 n && !declares o1a n
+  | .fileByFilename nm => !decide (o1.name = some nm) && !decide (o1a.name = some nm)
+  | _ => true
+
+open Spec.Reflection in
+def sameAnswer (c : Case) (o1 o1a : File) (rq : Reflection.Req) : OAns → OAns → Bool
+  | .fd i _ w, .fd j _ w' => i == j && w == w'
+  | .ext, .ext => true
+  | .svcs l, .svcs l' =>
+    match rq, c.chosen with
+    | .listServices _, none =>
+      (mdiff l l').all (declaresService o1) && (mdiff l' l).all (declaresService o1a)
+    | _, _ => l == l'
+  | _, _ => false
+
+def agreeStream (c : Case) (o1 o1a : File) :
+    List Reflection.Request → List OAns × OEnd → List OAns × OEnd → Bool
+  | [], (as, e), (bs, e') =>
+    as.isEmpty && bs.isEmpty && (match e, e' with | .fin, .fin => true | _, _ => false)
+  | rq :: rqs, (as, e), (bs, e') =>
+    if !outsideOwn o1 o1a rq.messageRequest then true
+    else match as, bs with
+      | a :: as', b :: bs' =>
+        sameAnswer c o1 o1a rq.messageRequest a b && agreeStream c o1 o1a rqs (as', e) (bs', e')
+      | [], [] => (match e, e' with
+        | .err x, .err y => x == y
+        | _, _ => false)
+      | _, _ => false
+
+def agreeStreams (c : Case) (o1 o1a : File) :
+    List (List Reflection.Request) → List (List OAns × OEnd) → List (List OAns × OEnd) → Bool
+  | rs :: rss, x :: xs, y :: ys => agreeStream c o1 o1a rs x y && agreeStreams c o1 o1a rss xs ys
+  | [], [], [] => true
+  | _, _, _ => false
+
+def versionsAgree (c : Case) (t1 t1a : List String) (b1 b1a : OBuild) : Bool :=
+  match c.own with
+  | none => decide (t1 = t1a)
+  | some (o1, o1a) =>
+    match b1, b1a with
+    | .err, .err => decide (t1 = t1a)
+    | .ok s1, .ok s1a => agreeStreams c o1 o1a c.streams s1 s1a
+    | _, _ => false
+
 def splitAt (ts : List String) (marker : String) : List String × List String :=
   (ts.takeWhile (· ≠ marker), (ts.dropWhile (· ≠ marker)).drop 1)
 
@@ -393,8 +462,10 @@ def handle (case obs : List String) : String × String :=
     let v := match obs with
       | _ :: "v1" :: rest =>
         let (o1, o1a) := splitAt rest "v1a"
-        let clauses := judgeVersion c own1 (oBuild o1).1 ++ judgeVersion c own1a (oBuild o1a).1
-          ++ [("versions-agree", c.inc || decide (o1 = o1a))]
+        let b1 := (oBuild o1).1
+        let b1a := (oBuild o1a).1
+        let clauses := judgeVersion c own1 b1 ++ judgeVersion c own1a b1a
+          ++ [("versions-agree", versionsAgree c o1 o1a b1 b1a)]
         verdict clauses
       | _ => "fail:observed-shape"
     (model, v)
